@@ -29,6 +29,10 @@ TECHNIQUE += '; interprocedural may-escape exception flow of write_input'
 EXPLANATION += ' Added: (R6) only FileFormatError and WriteInputError can leave api.write_input; _select_input_module fails with FileFormatError on every path.'
 TECHNIQUE += '; finite-domain evaluation of the field-dictionary code'
 EXPLANATION += " R3-R5 no longer match statement templates: the program-specific write_input and the prefix of write_input_base that builds the field dictionary are interpreted (iodalint.accessors) on abstract objects over a finite domain (7 charges, 7 spin polarisations, all run types in three spellings plus unsupported ones, absent / empty / given title, lot, basis; keyword arguments including 0 and ''), and the resulting fields are compared with the documented ones."
+# --- metadata added for batch 7
+TECHNIQUE += '; template rendering with marker fields; registry membership rule'
+EXPLANATION += " Added: (R7) default templates have the structure the program's input syntax requires (rendered with markers); (R8) the rendered template reaches the file once, and the API forwards template, atom_line and keyword arguments; (R9) every module of iodata.inputs that the registry builder would register (module-level `write_input`) is a documented program writer with the signature api.write_input uses -- a helper exposing that name would become a program. The shared rendering routine is located by role (the function of iodata.inputs every program writer calls), not by its name."
+# --- end metadata batch 7
 TRUSTED = ["CPython ast parser", "int() truncates toward zero; round/np.round/np.rint round to nearest", "str.format(**fields) takes the last value stored under a key"]
 
 ROUNDERS = {"round", "rint", "around"}
